@@ -58,6 +58,14 @@ def main(argv):
                     c.violation("CanonicalizePath(%r): %s" % (bytes.fromhex(val["first_bad"]), val["first_why"]),
                                 {"input_hex": val["first_bad"], "why": val["first_why"], "build": tag})
             families.append({"alphabet_hex": alpha, "max_len": ml, "build": tag, "inputs": ev})
+    # ---- wherever ninja takes a path (engine A, metamorphic) -----------------------------------
+    import nxcheck
+    import templates_c14
+    agg = nxcheck.run(c, templates_c14.templates(c.tier), ["C14"], seconds=600, tag="c14")
+    families.append({"family": "spelling twins: manifest / depfile targets and dependencies / showIncludes / dyndep / "
+                               "command-line targets / tool arguments (engine A)", "scenarios": agg["scenarios"],
+                     "states": agg["states"], "transitions": agg["transitions"], "inputs": agg["invocations"],
+                     "incomplete_scenarios": agg["incomplete_scenarios"]})
     cov = {
         "evaluations": sum(f["inputs"] for f in families),
         "distinct_nontrivial": total["changed"],
@@ -66,7 +74,11 @@ def main(argv):
         "traces_validated_against_impl": total["evaluations"],
         "rule": "every string over the alphabet up to max_len (odometer, sharded); each is one distinct input; "
                 "non-trivial = canonicalisation changes the string. states = distinct canonical forms (fixpoints), "
-                "transitions = input->canonical-form mappings checked against the reference on the real routine",
+                "transitions = input->canonical-form mappings checked against the reference on the real routine. "
+                "Engine A: projects whose manifest, depfiles (all outputs as targets), /showIncludes lines, dyndep files, "
+                "command-line targets and tool arguments use './x', 'zz/../x', doubled slashes and inner './' run in lock "
+                "step with their canonical twin through every history of depth <= 2/3 (same commands, same exit status, "
+                "clean final state); an invocation with oddly spelled arguments is compared with the same one spelled canonically",
         "families": families,
         "kept_dotdot_results": total["dotdot_kept"],
         "collapsed_to_dot": total["became_dot"],
